@@ -226,3 +226,51 @@ def refRun (accepting : Bool) (a : Nat) : Slot → List (Env × Option LOp) → 
       | .ok (s2, outs) => .ok (s2, (r, o) :: outs)
 
 end Tw.Net
+
+/-! ## Lazily consumed results
+
+`Net::feed` returns a `ReceivePacket` iterator and `Net::tick` a `Tick` iterator.  Everything `feed`
+does to the endpoint (the connection's eager scan that advances `ack`, the removal of the peer on a
+`Disconnect`, the datagrams it sends, the warnings) happens before the iterator is handed out; the
+iterator only *replays* the events.  `Tick` is the opposite: nothing happens until it is polled, and
+— `Callback::send` being infallible — the first `next()` ticks every peer.  Both borrow the endpoint
+mutably, so no other call can come in between; the application can only drop them early. -/
+namespace Tw.Net
+open Tw.Conn Tw.Conn6
+
+/-- a call whose result the application consumes only partly: `pull = some k` = it takes `k` items of
+the returned iterator (`next()` `k` times) and drops it; `none` = it drains it -/
+def stepLazy (env : Env) (net : Net) (op : Op) (pull : Option Nat) : Res :=
+  match op, pull with
+  | .tick, some 0 => .ok (net, .unit, {})
+  | .feed a rd, some k =>
+    match step env net (.feed a rd) with
+    | .error f => .error f
+    | .ok (net1, r, o) => .ok (net1, r, { o with events := o.events.take k })
+  | op, _ => step env net op
+
+/-- a history with the amount consumed of each result -/
+abbrev LHistory := List (Env × Op × Option Nat)
+
+def runLazy : Net → LHistory → Except Fail (Net × List (Ret × Out))
+  | net, [] => .ok (net, [])
+  | net, (env, op, pull) :: h =>
+    match stepLazy env net op pull with
+    | .error f => .error f
+    | .ok (net1, r, o) =>
+      match runLazy net1 h with
+      | .error f => .error f
+      | .ok (net2, outs) => .ok (net2, (r, o) :: outs)
+
+/-- the same history with every result drained; a `Tick` that is never polled is no call at all -/
+def drainedHist : LHistory → History
+  | [] => []
+  | (_, .tick, some 0) :: h => drainedHist h
+  | (env, op, _) :: h => (env, op) :: drainedHist h
+
+/-- all datagrams / events / warnings of a trace, in order -/
+def allSent (outs : List (Ret × Out)) : List (Nat × Packet) := outs.flatMap (·.2.sent)
+def allEvents (outs : List (Ret × Out)) : List (Nat × NEvent) := outs.flatMap (·.2.events)
+def allWarns (outs : List (Ret × Out)) : List (Nat × NWarn) := outs.flatMap (·.2.warns)
+
+end Tw.Net
